@@ -168,3 +168,33 @@ Check no_lost_withdrawal_refuted_inline_refresh :
   exists k e, kfind k (view CE s) = Some e /\ kfind k (cfresh g s) = None /\
               ~ withdrawal_pending CE s k /\ ~ change_undelivered CE s k.
 Print Assumptions no_lost_withdrawal_refuted_inline_refresh.
+
+(* (T5) End-of-RIB: one is buffered with the initial dump of a session and leaves right behind
+   the dump; one is scheduled when a queued route-refresh walk has been applied and leaves last
+   in the next batch; a flush or the end of the session clears both; no other step touches them. *)
+Theorem eor_emission :
+  forall (E : Type) (max : N) (vis : path -> bool) (polv : N -> bool -> N -> path -> option E)
+         (s : state E) (l : label),
+  let n := s_nbr s in
+  let n' := s_nbr (step E ByNet false false max (MAXOK max) vis polv s l) in
+  match l with
+  | Register => n_beor n' = true /\ n_eor n' = false /\
+                eor_positions n' = [N.of_nat (length (n_buf n'))]
+  | Flush | Unregister => n_beor n' = false /\ n_eor n' = false /\ eor_positions n' = []
+  | Deliver => n_beor n' = n_beor n /\ n_eor n' = (n_eor n || walk_at_head E n)
+  | _ => n_beor n' = n_beor n /\ n_eor n' = n_eor n
+  end.
+Proof. exact C01_eor_emission. Qed.
+Check eor_emission :
+  forall (E : Type) (max : N) (vis : path -> bool) (polv : N -> bool -> N -> path -> option E)
+         (s : state E) (l : label),
+  let n := s_nbr s in
+  let n' := s_nbr (step E ByNet false false max (MAXOK max) vis polv s l) in
+  match l with
+  | Register => n_beor n' = true /\ n_eor n' = false /\
+                eor_positions n' = [N.of_nat (length (n_buf n'))]
+  | Flush | Unregister => n_beor n' = false /\ n_eor n' = false /\ eor_positions n' = []
+  | Deliver => n_beor n' = n_beor n /\ n_eor n' = (n_eor n || walk_at_head E n)
+  | _ => n_beor n' = n_beor n /\ n_eor n' = n_eor n
+  end.
+Print Assumptions eor_emission.
